@@ -1175,6 +1175,10 @@ func (app *App) disableSemiSyncOnSlaves(becomeInactive, becomeDataLag []string) 
 }
 
 func (app *App) enableSemiSyncOnSlave(host string, slaveState, masterState *nodestate.NodeState) error {
+	if masterState == nil || masterState.MasterState == nil || slaveState == nil || slaveState.SlaveState == nil {
+		// e.g. the recorded master is in fact a replica: there are no positions to compare
+		return fmt.Errorf("no replication state of %s or of its master, semi_sync_slave is left as it is", host)
+	}
 	node := app.cluster.Get(host)
 	err := node.SemiSyncSetSlave()
 	if err != nil {
